@@ -9,7 +9,7 @@ RULE = ('class = (hash, |K| class around 0/1/digest/block/2*block/3*block, |M| c
         'where hashlib has the hash, RFC 2104 formula over the own reference hash otherwise (MD4, SHA-0, BLAKE-n) and as cross-check')
 ASSUMPTIONS = ['stdlib hmac/hashlib', 'own MD/SHA and BLAKE references (self-tested)']
 ANCHORS = [('hmac.py', 'HMAC.setkey'), ('hmac.py', 'HMAC.__call__'), ('hmac.py', 'HMAC.__init__')]
-REQUIRED = ['siblings:hmac==rfc2104', 'hmac==rfc2104', 'hmac==stdlib', 'setkey-replaces-key', 'mac-length']
+REQUIRED = ['samekey:hmac==rfc2104', 'siblings:hmac==rfc2104', 'hmac==rfc2104', 'hmac==stdlib', 'setkey-replaces-key', 'mac-length']
 NSHARDS = 14
 SAN = {'quick': (2, 30), 'thorough': (2, 30)}
 HASHES = c01.ALGS + ['blake224', 'blake256', 'blake384', 'blake512']
@@ -46,9 +46,11 @@ def keylens(B, D):
     return sorted(x for x in s if x >= 0)
 
 def cases(tier, rng):
+    for j in range(6 if tier == 'quick' else 60):
+        yield {'k': 'samekey', 'h': 'all', 'j': j}
     for name in HASHES:
         B, D = info(name)
-        mls = [0, 1, B - 1, B, B + 3] if tier == 'quick' else [0, 1, 7, D, B - D - 1, B - 1, B, B + 1, 2 * B, 3 * B + 5]
+        mls = [0, 1, B - 1, B, B + 3, B - 9, B - 17, 2 * B - 9, B - 8] if tier == 'quick' else [0, 1, 7, D, B - D - 1, B - 1, B, B + 1, 2 * B, 3 * B + 5]
         for kl in keylens(B, D) + ([2, B - D, 5 * B] if tier == 'thorough' else []):
             for ml in mls:
                 for pat in (('rand',) if tier == 'quick' else ('rand', 'zero', 'ones')):
@@ -66,6 +68,14 @@ def kcls(kl, B, D):
 
 def run(case, ctx, rng):
     from crysp.hmac import HMAC
+    if case['k'] == 'samekey':
+        # the same key (also longer than every block) and message under every hash of the library, in one process
+        K = rng.randbytes([131, 200, 20, 64, 129, 300][case['j'] % 6]); M = rng.randbytes(rng.choice([0, 20, 150]))
+        ctx.cls(('samekey', len(K)))
+        names = list(HASHES); rng.shuffle(names)
+        for nm in names:
+            ctx.eq('samekey:hmac==rfc2104', call(lambda: HMAC(make(nm), K)(M)), ref(nm, K, M), h=nm, K=K, M=M, order=names)
+        return
     name = case['h']
     B, D = info(name)
     if case['k'] == 'mac':
